@@ -2,6 +2,7 @@
 from .. import expr as X
 from .. import query as Q
 from .. import rules_cmp
+from .. import rules_msg
 from .. import typestate
 from ..cfg import witness_text
 
@@ -23,8 +24,9 @@ def run(ck, progs):
     ck.rule("C10.5", "termination bookkeeping: an LP is counted once when its predicate first holds (negative marker = not yet), the run stops "
                      "when the count of pending LPs reaches 0 or the termination time is passed")
     ck.rule("C10.6", "every message inserted in the serial heap has its flag word initialised (the comparator reads the cancellation bit of recycled buffers)")
+    ck.rule("C10.7", "event construction: msg_allocator_pack stores receiver / timestamp / type in the fields of their role and copies exactly the declared payload; ScheduleNewEvent forwards its five parameters position by position")
     for cfg, P in progs.items():
-        from .. import rules_msg
+        rules_msg.check_pack(ck, P, "C10.7")
         rules_msg.check_flags_initialised(ck, P, "C10.6")
         _main_loop(ck, P, cfg)
         _comparators(ck, P, cfg)
